@@ -10,6 +10,7 @@
 -/
 import MxModel.Gen.KPd
 import MxModel.Lemmas.PdSpec
+import MxModel.Lemmas.KTactic
 
 namespace Mx.KPd
 open Mx Mx.Gen Mx.PD
@@ -27,49 +28,12 @@ theorem phase_encoding :
 theorem get_current_phase_eq (c : Cfg) (b : Nat) (hmm : c.pmin ≤ c.pmax) :
     KPd.get_current_phase b c.pfix c.d3 c.d2 c.d1 c.pmax c.pmin c.start =
       some ((c.phaseAt b).rank, (c.phaseAt b).pct) := by
-  by_cases h0 : b < c.start
-  · have hp : c.phaseAt b = .idle := by simp only [Cfg.phaseAt, if_pos h0]
+  rcases PD.phaseAt_cases c b with ⟨h0, hp⟩ | ⟨h0, h1, hp⟩ | ⟨h0, h1, hp⟩ | ⟨h0, h1, hp⟩ | ⟨h0, hp⟩
+  all_goals
     rw [hp]
-    simp only [KPd.get_current_phase, if_pos h0, Option.pure_def, Phase.rank, Phase.pct]
-  · by_cases h1 : b < c.start + c.d1
-    · have hp : c.phaseAt b = .noPenalty := by
-        have h1' : b < c.e1 := h1
-        simp only [Cfg.phaseAt, if_neg h0, if_pos h1']
-      rw [hp]
-      simp only [KPd.get_current_phase, if_neg h0, if_pos h1, Option.pure_def, Phase.rank, Phase.pct]
-    · by_cases h2 : b < c.start + c.d1 + c.d2
-      · have hle : c.start + c.d1 ≤ b := by omega
-        have hp : c.phaseAt b = .linear (c.linearPct (b - (c.start + c.d1))) := by
-          have h1' : ¬ b < c.e1 := h1
-          have h2' : b < c.e2 := h2
-          simp only [Cfg.phaseAt, if_neg h0, if_neg h1', if_pos h2'] <;> rfl
-        rw [hp]
-        by_cases hd : 1 < c.d2
-        · have hd1 : 1 ≤ c.d2 := by omega
-          have hd0 : ¬ (c.d2 - 1 = 0) := by omega
-          simp only [KPd.get_current_phase, Cfg.linearPct, if_neg h0, if_neg h1, if_pos h2, sub?, div?,
-            if_pos hle, if_pos hmm, gt_iff_lt, if_pos hd, if_pos hd1, if_neg hd0, Option.bind_eq_bind,
-            Option.bind_some, Option.pure_def, Phase.rank, Phase.pct]
-        · simp only [KPd.get_current_phase, Cfg.linearPct, if_neg h0, if_neg h1, if_pos h2, sub?,
-            if_pos hle, if_pos hmm, gt_iff_lt, if_neg hd, Option.bind_eq_bind, Option.bind_some,
-            Option.pure_def, Phase.rank, Phase.pct]
-      · by_cases h3 : b < c.start + c.d1 + c.d2 + c.d3
-        · have hp : c.phaseAt b = .fixed c.pfix := by
-            have h1' : ¬ b < c.e1 := h1
-            have h2' : ¬ b < c.e2 := h2
-            have h3' : b < c.e3 := h3
-            simp only [Cfg.phaseAt, if_neg h0, if_neg h1', if_neg h2', if_pos h3']
-          rw [hp]
-          simp only [KPd.get_current_phase, if_neg h0, if_neg h1, if_neg h2, if_pos h3, Option.pure_def,
-            Phase.rank, Phase.pct]
-        · have hp : c.phaseAt b = .redeem := by
-            have h1' : ¬ b < c.e1 := h1
-            have h2' : ¬ b < c.e2 := h2
-            have h3' : ¬ b < c.e3 := h3
-            simp only [Cfg.phaseAt, if_neg h0, if_neg h1', if_neg h2', if_neg h3']
-          rw [hp]
-          simp only [KPd.get_current_phase, if_neg h0, if_neg h1, if_neg h2, if_neg h3, Option.pure_def,
-            Phase.rank, Phase.pct]
+    try simp only [Cfg.e1, Cfg.e2, Cfg.e3] at *
+    k_defs [KPd.get_current_phase, Phase.rank, Phase.pct, Cfg.linearPct]
+    k_solve
 
 /-- on a model state with the `init` guards the view `getCurrentPhase` is the model's `St.phase` -/
 theorem get_current_phase_state (s : St) (hok : s.cfg.ok) :
@@ -83,34 +47,12 @@ theorem get_current_phase_no_abort_outside_linear (c : Cfg) (b : Nat)
     KPd.get_current_phase b c.pfix c.d3 c.d2 c.d1 c.pmax c.pmin c.start =
       some ((c.phaseAt b).rank, (c.phaseAt b).pct) := by
   simp only [Cfg.e1, Cfg.e2] at h
-  by_cases h0 : b < c.start
-  · have hp : c.phaseAt b = .idle := by simp only [Cfg.phaseAt, if_pos h0]
+  rcases PD.phaseAt_cases c b with ⟨h0, hp⟩ | ⟨h0, h1, hp⟩ | ⟨h0, h1, hp⟩ | ⟨h0, h1, hp⟩ | ⟨h0, hp⟩
+  all_goals
     rw [hp]
-    simp only [KPd.get_current_phase, if_pos h0, Option.pure_def, Phase.rank, Phase.pct]
-  · by_cases h1 : b < c.start + c.d1
-    · have hp : c.phaseAt b = .noPenalty := by
-        have h1' : b < c.e1 := h1
-        simp only [Cfg.phaseAt, if_neg h0, if_pos h1']
-      rw [hp]
-      simp only [KPd.get_current_phase, if_neg h0, if_pos h1, Option.pure_def, Phase.rank, Phase.pct]
-    · have h2 : ¬ b < c.start + c.d1 + c.d2 := by omega
-      by_cases h3 : b < c.start + c.d1 + c.d2 + c.d3
-      · have hp : c.phaseAt b = .fixed c.pfix := by
-          have h1' : ¬ b < c.e1 := h1
-          have h2' : ¬ b < c.e2 := h2
-          have h3' : b < c.e3 := h3
-          simp only [Cfg.phaseAt, if_neg h0, if_neg h1', if_neg h2', if_pos h3']
-        rw [hp]
-        simp only [KPd.get_current_phase, if_neg h0, if_neg h1, if_neg h2, if_pos h3, Option.pure_def,
-          Phase.rank, Phase.pct]
-      · have hp : c.phaseAt b = .redeem := by
-          have h1' : ¬ b < c.e1 := h1
-          have h2' : ¬ b < c.e2 := h2
-          have h3' : ¬ b < c.e3 := h3
-          simp only [Cfg.phaseAt, if_neg h0, if_neg h1', if_neg h2', if_neg h3']
-        rw [hp]
-        simp only [KPd.get_current_phase, if_neg h0, if_neg h1, if_neg h2, if_neg h3, Option.pure_def,
-          Phase.rank, Phase.pct]
+    try simp only [Cfg.e1, Cfg.e2, Cfg.e3] at *
+    k_defs [KPd.get_current_phase, Phase.rank, Phase.pct, Cfg.linearPct]
+    k_solve
 
 /-- in the linear phase a configuration with `max < min` makes the source abort (checked
     `BigUint` subtraction) — the reason `init` demands `min ≤ max` -/
@@ -118,23 +60,15 @@ theorem get_current_phase_aborts (c : Cfg) (b : Nat) (h1 : c.e1 ≤ b) (h2 : b <
     (hmm : c.pmax < c.pmin) :
     KPd.get_current_phase b c.pfix c.d3 c.d2 c.d1 c.pmax c.pmin c.start = none := by
   simp only [Cfg.e1, Cfg.e2] at h1 h2
-  have a0 : ¬ b < c.start := by omega
-  have a1 : ¬ b < c.start + c.d1 := by omega
-  have a2 : c.start + c.d1 ≤ b := h1
-  have a3 : ¬ c.pmin ≤ c.pmax := by omega
-  simp only [KPd.get_current_phase, if_neg a0, if_neg a1, if_pos h2, sub?, if_pos a2, if_neg a3,
-    Option.bind_eq_bind, Option.bind_some, Option.bind_none]
+  k_defs [KPd.get_current_phase]
+  k_solve
 
 /-- source `calculate_price` (view `getCurrentPrice`) IS the model's `priceOf`: it aborts exactly
     when no launched tokens are in the pool, otherwise `⌊accepted · precision / launched⌋` -/
 theorem calculate_price_eq (c : Cfg) (l a : Nat) :
     KPd.calculate_price a l c.prec = priceOf c l a := by
-  by_cases h : 0 < l
-  · have h0 : ¬ l = 0 := by omega
-    simp only [KPd.calculate_price, priceOf, gt_iff_lt, req, if_pos h, div?, if_neg h0,
-      Option.bind_eq_bind, Option.bind_some, Option.pure_def]
-  · simp only [KPd.calculate_price, priceOf, gt_iff_lt, req, if_neg h, Option.bind_eq_bind,
-      Option.bind_none]
+  k_defs [KPd.calculate_price, priceOf]
+  try k_solve
 
 /-- on a model state: the source price on the tracked balances is `St.price` -/
 theorem calculate_price_state (s : St) :
@@ -150,24 +84,16 @@ theorem withdraw_amounts_eq (amt pct : Nat) :
     KPd.withdraw_amounts amt pct =
       (sub? amt (amt * pct / MAXP)).map fun wd => (amt * pct / MAXP, wd) := by
   have hM : MAXP = 10000000000000 := rfl
-  have h0 : ¬ (10000000000000 = 0) := by omega
-  simp only [KPd.withdraw_amounts, hM, div?, if_neg h0, Option.bind_eq_bind, Option.bind_some,
-    Option.pure_def]
-  cases sub? amt (amt * pct / 10000000000000) <;> rfl
+  k_defs [KPd.withdraw_amounts, hM]
+  k_solve
 
 /-- the price guard of `withdraw`: the price after the balance update must not fall below the
     minimum; aborts also when no launched tokens are left -/
 theorem withdraw_price_check_eq (c : Cfg) (l a : Nat) :
     KPd.withdraw_price_check a l c.minPrice c.prec =
       (priceOf c l a).bind fun p => if c.minPrice ≤ p then some p else none := by
-  simp only [KPd.withdraw_price_check, calculate_price_eq, Option.bind_eq_bind, ge_iff_le,
-    Option.pure_def]
-  cases priceOf c l a with
-  | none => rfl
-  | some p =>
-    by_cases h : c.minPrice ≤ p
-    · simp only [Option.bind_some, req, if_pos h]
-    · simp only [Option.bind_some, req, if_neg h, Option.bind_none]
+  k_defs [KPd.withdraw_price_check, calculate_price_eq]
+  try (cases priceOf c l a <;> k_solve)
 
 /-- the price guard of `deposit`: price 0, or not below the minimum, or the payment is the
     accepted token (token identifiers are the redeem nonces of the model's sides) -/
@@ -175,34 +101,18 @@ theorem deposit_price_check_eq (c : Cfg) (l a : Nat) (t : Tok) :
     KPd.deposit_price_check a Tok.accepted.nonce l c.minPrice t.nonce c.prec =
       (priceOf c l a).bind fun p =>
         if p = 0 ∨ c.minPrice ≤ p ∨ t = .accepted then some p else none := by
-  simp only [KPd.deposit_price_check, calculate_price_eq, Option.bind_eq_bind, ge_iff_le,
-    Option.pure_def]
-  cases priceOf c l a with
-  | none => rfl
-  | some p =>
-    have ht : t.nonce = Tok.accepted.nonce ↔ t = .accepted := by
-      cases t <;> simp [Tok.nonce]
-    by_cases h : p = 0 ∨ c.minPrice ≤ p ∨ t = .accepted
-    · have h' : (p = 0 ∨ c.minPrice ≤ p) ∨ t.nonce = Tok.accepted.nonce := by
-        rcases h with h | h | h
-        · exact Or.inl (Or.inl h)
-        · exact Or.inl (Or.inr h)
-        · exact Or.inr (ht.mpr h)
-      simp only [Option.bind_some, req, if_pos h', if_pos h]
-    · have h' : ¬ ((p = 0 ∨ c.minPrice ≤ p) ∨ t.nonce = Tok.accepted.nonce) := by
-        intro c'; apply h
-        rcases c' with (c' | c') | c'
-        · exact Or.inl c'
-        · exact Or.inr (Or.inl c')
-        · exact Or.inr (Or.inr (ht.mp c'))
-      simp only [Option.bind_some, req, if_neg h', if_neg h, Option.bind_none]
+  have ht : t.nonce = Tok.accepted.nonce ↔ t = .accepted := by cases t <;> simp [Tok.nonce]
+  generalize t.nonce = n at ht ⊢
+  generalize Tok.accepted.nonce = an at ht ⊢
+  k_defs [KPd.deposit_price_check, calculate_price_eq]
+  try (cases priceOf c l a <;> k_solve)
 
 /-- the share computation of `redeem` (`compute_bought_tokens`): `⌊other-side balance · amount /
     redeem supply⌋`, aborting on a zero supply -/
 theorem bought_tokens_amount_eq (amt sup bal : Nat) :
     KPd.bought_tokens_amount amt sup bal = if sup = 0 then none else some (bal * amt / sup) := by
-  simp only [KPd.bought_tokens_amount, div?, Option.bind_eq_bind, Option.pure_def]
-  split <;> rfl
+  k_defs [KPd.bought_tokens_amount]
+  k_solve
 
 /-- a successful model `withdraw` runs the source's penalty computation and price guard with the
     model's refund `o.v1`, penalty `o.v2` and the price of the new state -/
@@ -239,6 +149,21 @@ theorem redeem_runs_source {s s' : St} {c : Nat} {t : Tok} {amt : Nat} {o : Out}
     KPd.bought_tokens_amount amt (s.side t).sup (s.side t.other).bal = some o.v1 := by
   obtain ⟨bought, _, _, _, _, hsup, hb, _, rfl, _⟩ := redeem_spec h
   rw [bought_tokens_amount_eq, if_neg hsup, hb]
+
+/-- the configuration guards of `init` on the penalty percentages are the first three conjuncts of
+    the model's `Cfg.ok` (`min ≤ max`, `max < 100 %`, `fixed < 100 %`), and the stored `end_block` is
+    the model's `e3` (first block of the redeem phase) -/
+theorem init_guards_eq (c : Cfg) :
+    KPd.init_guards c.pfix c.d3 c.d2 c.d1 c.pmax c.pmin c.start =
+      if c.pmin ≤ c.pmax ∧ c.pmax < MAXP ∧ c.pfix < MAXP then some c.e3 else none := by
+  have hM : MAXP = 10000000000000 := rfl
+  k_defs [KPd.init_guards, Cfg.e3, hM]
+  k_solve
+
+/-- a configuration the model accepts passes the source's `init` guards -/
+theorem init_guards_of_ok (c : Cfg) (h : c.ok) :
+    KPd.init_guards c.pfix c.d3 c.d2 c.d1 c.pmax c.pmin c.start = some c.e3 := by
+  rw [init_guards_eq, if_pos ⟨h.1, h.2.1, h.2.2.1⟩]
 
 example : KPd.get_current_phase 25 7 10 11 10 60 10 10 = some (2, 35) := by decide
 example : KPd.get_current_phase 5 7 10 11 10 60 10 10 = some (0, 0) := by decide
